@@ -88,6 +88,7 @@ const (
 	kLocPkgX    = "shape:location/location-package-is-name-not-path/extra"
 	kStoreAddr  = "shape:location/address-of-field-store-identified-as-field-read/extra"
 	kF13        = "invalid-regex-panics"
+	kIfaceXtra  = "e2e:interface-sink-expansion-builds-unanchored-name-patterns/extra"
 	kSynth      = "e2e:synthetic-source-node-is-entry-point-of-every-problem/extra"
 )
 
@@ -100,7 +101,7 @@ func all(names ...string) map[string]bool {
 }
 
 var aProbes = []string{"a1", "a2", "a3", "a4", "a5", "a6", "a7", "a8", "a9"}
-var bProbes = []string{"b1", "b2", "b3", "b4", "b5", "b6", "b7", "b8", "b9", "b10", "b11"}
+var bProbes = []string{"b1", "b2", "b3", "b4", "b5", "b6", "b7", "b8", "b9", "b10", "b11", "b12"}
 
 func e2eCases() []e2eCase {
 	return []e2eCase{
@@ -125,6 +126,8 @@ func e2eCases() []e2eCase {
 			finding: map[string]string{"b5": kSinkInvM, "b10": kSinkInvM}},
 		{name: "sink-function-value-with-context", mode: "taint", config: oneSink("method: \"^sink2$\"\n        context: \"b6$\""), expect: all("b6"),
 			finding: map[string]string{"b6": kSinkFvM}},
+		{name: "interface-sink-expanded-to-implementations", mode: "taint", config: oneSink("package: \"vmod/lib\"\n        interface: \"Putter\""), expect: all("b5", "b10", "b12"),
+			finding: map[string]string{"b13": kIfaceXtra}},
 		{name: "location-package-path", mode: "taint", config: oneSource("package: \"^vmod/lib$\"\n        type: \"Rec\"\n        field: \"^Secret$\""), expect: all("e1"),
 			finding: map[string]string{"e1": kLocPkgM}},
 		{name: "location-package-name", mode: "taint", config: oneSource("package: \"^lib$\"\n        type: \"Rec\"\n        field: \"^Secret$\""), expect: all(),
